@@ -241,4 +241,80 @@ theorem recvLoop_full (watch : Bool) (max : Nat) (fuel : Nat) (ca : Option Nat) 
   subst this
   exact ⟨ka, hw, ha, s3, s4⟩
 
+/-! ### where cancellation errors come from -/
+
+def isCancelErr : ErrClass → Bool
+  | .ctxCanceled => true | .rpcCanceled => true | _ => false
+
+theorem attempt_not_cancelErr (fuel : Nat) (last : ErrClass) (c : Cli μ ρ) (hl : isCancelErr last = false) :
+    ∀ e c', attempt fuel last c = .fail e c' → isCancelErr e = false := by
+  induction fuel generalizing last c with
+  | zero => intro e c' h; simp only [attempt] at h; injection h with h1 _; rw [← h1]; exact hl
+  | succ n ih =>
+    intro e c' h
+    obtain ⟨cur, curEnd, rest, sent, reqs, reach, cancelIs⟩ := c
+    cases rest with
+    | nil =>
+      simp only [attempt] at h
+      exact ih _ _ rfl e c' h
+    | cons s r =>
+      simp only [attempt] at h
+      cases hm : s.msgs with
+      | cons m ms => rw [hm] at h; exact nomatch h
+      | nil =>
+        rw [hm] at h
+        by_cases hh : s.fin = .hang
+        · simp only [hh, if_true] at h
+          injection h with h1 _; rw [← h1]; rfl
+        · simp only [hh, if_false] at h
+          exact ih _ _ (by cases s.fin <;> rfl) e c' h
+
+theorem endErr_not_cancel (x : End) : isCancelErr (endErr x) = false := by cases x <;> rfl
+
+/-- an uncancelled `RecvMsg` never fails with a cancellation error -/
+theorem recvMsg_live_not_cancelErr (watch : Bool) (max : Nat) (c : Cli μ ρ) :
+    ∀ e c', recvMsg watch max false c = .fail e c' → isCancelErr e = false := by
+  intro e c' h
+  unfold recvMsg at h
+  simp only [Bool.false_eq_true, if_false] at h
+  split at h
+  · exact nomatch h
+  · split at h
+    · injection h with h1 _; rw [← h1]; rfl
+    · split at h
+      · exact attempt_not_cancelErr _ _ _ (endErr_not_cancel _) e c' h
+      · injection h with h1 _; rw [← h1]; exact endErr_not_cancel _
+
+/-- a run that ends with a cancellation error (cancel-after-`n` plan) delivered exactly `n` messages -/
+theorem recvLoop_cancel_length (watch : Bool) (max : Nat) (fuel : Nat) (n : Nat) (c : Cli μ ρ)
+    (h : isCancelErr (recvLoop watch max (some n) fuel c).err = true) :
+    (recvLoop watch max (some n) fuel c).delivered.length = n := by
+  induction fuel generalizing n c with
+  | zero => simp [recvLoop, isCancelErr] at h
+  | succ f ih =>
+    cases n with
+    | zero =>
+      unfold recvLoop
+      have : ((some 0 : Option Nat) == some 0) = true := by simp
+      rw [this]
+      cases hr : recvMsg watch max true c with
+      | fail e c' => rfl
+      | msg m c' =>
+        exfalso
+        cases watch <;> simp [recvMsg, recvCancelled] at hr <;> split at hr <;> simp at hr
+    | succ n =>
+      have e1 : ((some (n + 1) : Option Nat) == some 0) = false := by simp
+      unfold recvLoop at h ⊢
+      rw [e1] at h ⊢
+      cases hr : recvMsg watch max false c with
+      | fail e c' =>
+        rw [hr] at h
+        have := recvMsg_live_not_cancelErr watch max c e c' hr
+        simp only at h
+        rw [this] at h; exact absurd h (by simp)
+      | msg m c' =>
+        rw [hr] at h
+        simp only [Option.map_some, Nat.add_sub_cancel, List.length_cons] at h ⊢
+        rw [ih n c' h]
+
 end Eru.Rpc.Retry
